@@ -33,6 +33,8 @@ Create == \E n \in Names, fl \in FamLists : Do([ev |-> "CreateTable", t |-> n[2]
 Get    == \E n \in Names : Do([ev |-> "GetTable", t |-> n[2]])
 List   == \E p \in {P1, P2, <<122>>} : Do([ev |-> "ListTables", parent |-> p])
 Delete == \E n \in Names : Do([ev |-> "DeleteTable", t |-> n[2]])
+Token  == \E n \in Names : Do([ev |-> "GenerateToken", t |-> n[2]])
+Check  == \E n \in Names, m \in Names, g \in BOOLEAN : Do([ev |-> "CheckConsistency", t |-> n[2], tokFor |-> m[2], genuine |-> g])
 Modify == \E n \in Names, ml \in ModLists : Do([ev |-> "ModifyFamilies", t |-> n[2], mods |-> ml])
 Drop   == \E n \in Names :
             \/ \E pf \in Prefixes : Do([ev |-> "DropRowRange", t |-> n[2], all |-> FALSE, hasPrefix |-> TRUE, prefix |-> pf])
@@ -42,7 +44,7 @@ Write  == \E n \in Names, k \in Keys, f \in {FamF, FamG, FamH} :
             Do([ev |-> "MutateRow", t |-> n[2], k |-> k, now |-> T1,
                 muts |-> <<[m |-> "set", f |-> f, q |-> <<>>, ts |-> T1, v |-> VX]>>])
 
-Next == Create \/ Get \/ List \/ Delete \/ Modify \/ Drop \/ Write
+Next == Create \/ Get \/ List \/ Delete \/ Token \/ Check \/ Modify \/ Drop \/ Write
 Spec == Init /\ [][Next]_vars
 Constr == TotalCells(st) <= MaxCells /\ Len(path) <= MaxDepth /\ Dump
 
@@ -56,6 +58,11 @@ DropLaw == [][(last'.op.ev = "DropRowRange" /\ last'.resp.ok /\ last'.op.hasPref
      /\ st'.tables[t].fams = st.tables[t].fams
      /\ DOMAIN st'.tables[t].rows = {k \in DOMAIN st.tables[t].rows : ~IsPrefixB(last'.op.prefix, k)}
      /\ \A k \in DOMAIN st'.tables[t].rows : st'.tables[t].rows[k] = st.tables[t].rows[k]]_vars
+\* consistency-token requests are reads; a token is accepted exactly for the table it was generated for
+TokenLaw == [][last'.op.ev \in {"GenerateToken", "CheckConsistency"} =>
+     /\ st' = st
+     /\ last'.resp.ok => HasTbl(st, last'.op.t)
+     /\ (last'.op.ev = "CheckConsistency" /\ last'.resp.ok) => (last'.op.genuine /\ last'.op.tokFor = last'.op.t /\ last'.resp.consistent)]_vars
 \* rows never hold cells of a family that is not in the schema
 InvSchema == InvCanonical
 =============================================================================
